@@ -37,7 +37,9 @@ func (Engine) Runs(prop, tier string) int {
 func (Engine) Real() []string {
 	return []string{"group/mod.Int (both implementations: int.go over math/big, constant_time_int.go over compatible/bigmod)", "compatible, compatible/compatiblemod, compatible/bigmod"}
 }
-func (Engine) Stubs() []string { return []string{"none: the op log is applied to the real type; builds are compared by transcript"} }
+func (Engine) Stubs() []string {
+	return []string{"none: the op log is applied to the real type; builds are compared by transcript"}
+}
 func (Engine) Rule() string {
 	return "one run = one modulus, a pool of 4 Ints, <= 30 tape-drawn calls with pool slots as receiver and operands; signature = the call sequence"
 }
